@@ -10,6 +10,9 @@ CLAIMED = {
  "C12": ("deterministic simulation on the fake clock: writes pending approval with 1-3 callbacks whose verdict tasks are released in any order and sleep to just before / at / after the timeout while the scheduler also advances the clock mid-operation; per-write oracle over result datagrams, data-change events and callback invocation log (DESIGN A.6)",
          "Seeded exploration of 1-4 writes pending together on approval-guarded server features (1-3 callbacks, timeouts 100 ms-10 s, one or two peers), per-callback verdicts approve/deny/silent answered at once, after some scheduling, or 1 ms before / exactly at / 1 ms after the timeout, with the approval timer callback as a schedulable task; every handled write must be presented once to every callback and end with exactly one outcome: applied + success result iff all callbacks approved and the last approval returned before the timer fired, error result if not unanimous or the timer finished before the deciding verdict was invoked, either (never both, never none) when they overlap; data-change event iff success.",
          "Sampling; trusted: instrumenter, synctest fake clock (rules T1-T3), the A.6 classification. In the thorough tier feature_local.go gets statement-level preemption.", "5/C12"),
+ "C13": ("deterministic simulation: 2-6 app tasks call Request/Notify/Write/Reply/Result/Subscribe/Bind/DatagramForMsgCounter/ProcessResponse on one connection under seeded schedules with statement-level preemption in send.go; history oracle over the outbound trace and return values; long sequential histories with >64 unanswered requests and >100 notifications",
+         "Seeded exploration of interleavings of concurrent sender calls on one connection (statement granularity inside send.go) and of long sequential histories of requests over 3 destinations x 3 commands interleaved with responses referencing earlier, unknown and already answered counters, more than 64 unanswered distinct requests, and more than 100 notifications interleaved with lookups of old ones. Oracle: all counters on the connection distinct; counters increase between non-overlapping calls; a withheld request returns the counter of an identical request that is unanswered, a different request is never withheld, a processed response re-enables sending, an identical unanswered request is not sent again (when the bound cannot have forgotten it); remembered unanswered requests <= 64; each of the last 100 notifications is retrievable with exactly the datagram sent.",
+         "Sampling; trusted: instrumenter (statement-level yields), synctest, the history oracle in harness/sc_c13.go.", "5/C13"),
  "C03": ("deterministic simulation: scripted peers interleave bind/unbind/subscribe/write with conn.drop, conn.restart, peer.entity_remove and net.dup faults; reference binding registry decides per write whether it is authorised; data snapshots, outbound traces and events are the observables",
          "Seeded exploration of interleaved histories of bind, unbind, subscribe, write (from the bound feature, from another feature of the same peer, to read-only functions), disconnect/reconnect and entity removal by 2-3 peers with overlapping numbering against 2-6 local server features; for each delivered write the oracle requires, when unauthorised, unchanged data, no notification, no data-change event and exactly one error result, and when authorised, the data applied, one notify per current subscriber, one event and a success result iff ack.",
          "Sampling; trusted: instrumenter, synctest, registry model (A.5). Writes whose handling overlaps a registry change on their key, or other updates of the same function, are only checked for <=1 result.", "5/C03"),
